@@ -105,19 +105,12 @@ def run(chk):
     check_guards(chk, mi_g, g, "group", [
         (f"{gax} in (0, -1)", [(f"{gax} in (0, -1)", True), (f"{gax} in [0, -1]", True)], None, "group(t, axis=1, group_size=g)"),
     ])
-    # divisor guard: group_size must divide numel // shape[axis]
-    ok_div = False
-    for p in paths_of(g):
-        if p.end[0] == "raise" and "ValueError" in U(p.end[1]):
-            for c, tr, _ in p.conds:
-                if tr and isinstance(c, ast.BoolOp) and isinstance(c.op, ast.Or):
-                    txt = [U(v) for v in c.values]
-                    numel = f"{b}.numel() // {b}.shape[{gax}]"
-                    if f"{numel} % {ggs} != 0" in txt:
-                        ok_div = True
-                elif tr and U(c) == f"{b}.numel() // {b}.shape[{gax}] % {ggs} != 0":
-                    ok_div = True
-    chk.require("C14.R1", f"{mi_g.rel}:{g.lineno}", ok_div, f"group: rejects a group size that does not divide numel // shape[axis] with ValueError", "group", "missing guard: group_size divides axis_numel", "quantize_weight(t, qint4, 0, group_size=g) with g not a divisor: reshape error or silently wrong groups")
+    # divisor guard: every accepting path has established that group_size divides numel // shape[axis]
+    numel = f"{b}.numel() // {b}.shape[{gax}]"
+    check_guards(chk, mi_g, g, "group", [
+        ("group_size divides axis_numel", [(f"{numel} % {ggs} == 0", True), (f"0 == {numel} % {ggs}", True), (f"not {numel} % {ggs}", True)], None,
+         "quantize_weight(t, qint4, 0, group_size=g) with g not a divisor: reshape error or silently wrong groups"),
+    ])
     # ---- optimizers' __call__
     for cname, allowed in (("SymmetricOptimizer", "[None, 0, -1]"), ("AffineOptimizer", "[0, -1]")):
         ci = repo.cls(cname)
@@ -199,9 +192,11 @@ def group_size_rule(chk):
                     pass
         else:
             targets.append((m, p, val, line))
-        for fn, tp, tv, tl in targets:
+        from ..core import facts_with, ifexp_cases
+        targets = [(fn, tp, cv, tl, extra) for fn, tp, tv, tl in targets for cv, extra in ifexp_cases(tv) if U(cv) != "None"]
+        for fn, tp, tv, tl, extra in targets:
             checked += 1
-            f = facts_of(tp)
+            f = facts_with(tp, extra)
             from ..core import strip_identity
             tvt = U(strip_identity(tv))
             feat = "self.weight.numel() // self.weight.shape[0]"
